@@ -9,26 +9,28 @@
 (*           val   |-> <<n, d>> per entry,   jac |-> rows of <<n, d>>      *)
 (*                     (the doubles as rationals; d = 0: not within 1e-9   *)
 (*                      of a rational with a small denominator, nan, inf), *)
-(*           err   |-> sequence of <<row, col (0 = val), e>> for the        *)
-(*                     entries whose required value is a TERM: e = the     *)
-(*                     scaled difference |x - ref| / max(1, |ref|) * 1e12, *)
-(*                     rounded up, capped at 2^30, between the double x    *)
-(*                     returned by porepy and the numpy evaluation ref of  *)
-(*                     the term that AdAlgebraEnum emitted (ref is NOT     *)
-(*                     computed by porepy)]                                *)
-(* The judge recomputes Eval(C.t, point) itself.                           *)
+(*           err   |-> <<row, col (0 = val), e>> for the entries whose     *)
+(*                     required value is a TERM: e = the scaled difference *)
+(*                     |x - ref| / max(1, |ref|) * 1e12, rounded up,       *)
+(*                     capped at 2^30, between the double x returned by    *)
+(*                     porepy and the numpy evaluation ref of the term     *)
+(*                     emitted by AdAlgebraEnum (ref is NOT computed by    *)
+(*                     porepy)]                                            *)
+(* The judge computes Eval(C.t, point) itself.                             *)
 (*                                                                         *)
-(* Property clauses ("the value equals the plain numpy evaluation of the   *)
-(* same expression; the Jacobian equals the true derivative wherever the   *)
-(* expression is differentiable"):                                         *)
-(*   InFamily   self-check: the program is in the family at the point      *)
+(* Clauses (one invariant, they share the evaluation of the program):      *)
+(*   InFamily   self-check: the point is in the smooth domain of the       *)
+(*              program (the enumerator only emits such cases)             *)
 (*   Evaluates  the real evaluation returns (no exception)                 *)
 (*   Shape      val has the required length, jac is (length x NN)          *)
-(*   Value      every val entry: rational entries exactly, term entries    *)
-(*              within the tolerance policy of DESIGN section 8            *)
-(*   Jacobian   likewise for every Jacobian entry                          *)
-(* Tolerance policy for term entries: e <= PassE (1e-9) passes, e > FailE  *)
-(* (1e-6) is a violation, in between the entry is told as "inconclusive".  *)
+(*   Value      "the value equals the plain numpy evaluation of the same   *)
+(*              expression": rational required entries exactly, term       *)
+(*              entries within the tolerance policy                        *)
+(*   Jacobian   "the Jacobian equals the true derivative wherever the      *)
+(*              expression is differentiable": likewise, every entry       *)
+(* Tolerance policy for term entries (DESIGN section 8): e <= PassE (1e-9) *)
+(* passes, e > FailE (1e-6) is a violation, in between the entry is told   *)
+(* as "inconclusive".                                                      *)
 (***************************************************************************)
 EXTENDS Judge, AdAlgebra
 
@@ -39,7 +41,7 @@ FailE == 1000000
 ErrOf(i, j) == IF \E k \in 1..Len(C.out.err) : C.out.err[k][1] = i /\ C.out.err[k][2] = j
                THEN C.out.err[CHOOSE k \in 1..Len(C.out.err) : C.out.err[k][1] = i /\ C.out.err[k][2] = j][3]
                ELSE -1
-Req(v, i, j) == IF j = 0 THEN v[i].val ELSE v[i].jac[j]
+Req(v, i, j) == IF j = 0 THEN v[i].val ELSE JGet(v[i].jac, j)
 Obs(i, j) == IF j = 0 THEN C.out.val[i] ELSE C.out.jac[i][j]
 EntryOK(v, i, j) == LET r == Req(v, i, j)
                     IN IF IsQ(r) THEN Obs(i, j)[2] > 0 /\ REq(Obs(i, j), Rt(r))
@@ -47,19 +49,20 @@ EntryOK(v, i, j) == LET r == Req(v, i, j)
 EntryGrey(v, i, j) == ~IsQ(Req(v, i, j)) /\ ErrOf(i, j) > PassE /\ ErrOf(i, j) <= FailE
 
 Report(clause, bad) == bad = {} \/ PrintT(ToJson([case |-> ci, clause |-> clause, bad |-> bad]))
-Tell2(tag, g) == g = {} \/ PrintT(ToJson([case |-> ci, tag |-> tag, val |-> g]))
+TellSet(tag, g) == g = {} \/ PrintT(ToJson([case |-> ci, tag |-> tag, val |-> g]))
 
-\* all clauses of a case share the (expensive) evaluation of the program: one invariant
 Clauses ==
   (~Judging) \/
-  LET E == Eval(C.t, Points[C.pt])
+  LET P == Points[C.pt]
+      nn == NNP(P)
+      E == Eval(C.t, P)
   IN IF E.k # "ad" THEN Fail("InFamily")
      ELSE IF C.out.error # "" THEN Fail("Evaluates")
-     ELSE IF ~(C.out.n = Len(E.v) /\ C.out.rows = Len(E.v) /\ C.out.cols = NN) THEN Fail("Shape")
+     ELSE IF ~(C.out.n = Len(E.v) /\ C.out.rows = Len(E.v) /\ C.out.cols = nn) THEN Fail("Shape")
      ELSE LET v == E.v
               I == 1..Len(v)
-              IJ == {<<i, j>> : i \in I, j \in 1..NN}
+              IJ == {<<i, j>> : i \in I, j \in 1..nn}
           IN /\ Report("Value", {<<i, 0>> : i \in {i \in I : ~EntryOK(v, i, 0)}})
              /\ Report("Jacobian", {x \in IJ : ~EntryOK(v, x[1], x[2])})
-             /\ Tell2("inconclusive", {x \in IJ \cup {<<i, 0>> : i \in I} : EntryGrey(v, x[1], x[2])})
+             /\ TellSet("inconclusive", {x \in IJ \cup {<<i, 0>> : i \in I} : EntryGrey(v, x[1], x[2])})
 =============================================================================
